@@ -314,6 +314,11 @@ def run_active(sx, cfg, env):
                 # whatever the decoder sends is a clear-to-send on the tx id paired with this rx id
                 sx.require(m.arbitration_id == TX[which], "flow-control-sent-on-the-paired-tx-id")
                 sx.require(bytes(m.data)[:3] == bytes([0x30, 0xFF, 0x00]), "flow-control-is-clear-to-send")
+        if len(frames) > 257:
+            ncf = len(frames) - 1
+            # one clear-to-send per first frame and one per block of 255 consecutive frames
+            sx.require(1 + ncf // 256 <= fcs <= 1 + (ncf + 254) // 255,
+                       "one-flow-control-per-block-of-consecutive-frames")
         sx.require(len(got) == 1, "telegram-reported-exactly-once")
         if got:
             sx.require(got[0][1] == payload, "telegram-content")
